@@ -6,8 +6,8 @@
    Model/Once.v (syncutil.Once), tied to the Go code by the correspondence run. *)
 From Coq Require Import Sorting.Sorted Sorting.Permutation.
 From Oras Require Import Base.Prelude Generated.GC16
-  Model.Scopes Model.Challenge Model.AuthClient Model.Once Model.CacheSet Model.OnceSlot Model.AuthConc
-  Proofs.Scopes Proofs.ScopesIdem Proofs.AuthClient Proofs.AuthHistory Proofs.Once Proofs.CacheSet Proofs.OnceSlot Proofs.AuthConc.
+  Model.Scopes Model.Challenge Model.AuthClient Model.Once Model.CacheSet Model.OnceSlot Model.AuthConc Model.Redirect
+  Proofs.Scopes Proofs.ScopesIdem Proofs.AuthClient Proofs.AuthHistory Proofs.Once Proofs.CacheSet Proofs.OnceSlot Proofs.AuthConc Proofs.Redirect.
 
 (* ================= scope sets: the canonical cache key ================= *)
 
@@ -480,3 +480,21 @@ Theorem C16_history_budget_and_reuse :
             hist (fst (run_history clean parse cf c hist)).
 Proof. exact history_budget_and_reuse. Qed.
 Print Assumptions C16_history_budget_and_reuse.
+
+(* ================= known findings: net/http's redirect policy ================= *)
+
+(* redirect-other-port-keeps-authorization, as a statement about the policy model
+   (Model/Redirect.v, compared with net/http on every followed redirect): hosts that
+   the auth client keeps apart are one host for the policy *)
+Theorem C16_redirect_other_port_refuted :
+  let a := b "reg0.test" in let c := b "reg0.test:443" in
+  a <> c /\ keeps_authorization a c = true /\ keeps_authorization c a = true /\
+  keeps_authorization a (b "reg1.test:5000") = false /\ keeps_authorization a (b "blobs.reg0.test") = true.
+Proof. exact other_port_keeps_authorization. Qed.
+Print Assumptions C16_redirect_other_port_refuted.
+
+(* redirect-token-request-resent: 307/308 keep the body of the token POST *)
+Theorem C16_redirect_token_post_refuted :
+  keeps_body 307 = true /\ keeps_body 308 = true /\ keeps_body 302 = false /\ keeps_body 303 = false.
+Proof. exact token_post_resent. Qed.
+Print Assumptions C16_redirect_token_post_refuted.
